@@ -63,6 +63,7 @@ func aliasSet(seed ssa.Value) map[ssa.Value]bool {
 func inLoop(b *ssa.BasicBlock) bool { return reachFrom(b)[b] }
 
 func runC08(c *Ctx, r *Report) {
+	defer round8(c, r, "C08")
 	l := c.L
 	c08r1(c, r)
 	c08r2(c, r)
